@@ -423,6 +423,41 @@ Proof.
       pose proof (Rle_0_sqr x) as Hx. unfold Rsqr in Hx. nra.
 Qed.
 
+Lemma dot_self_pos_nonzero d : (exists i, nth i d 0 <> 0) -> 0 < dot d d.
+Proof.
+  intros (i & Hi). pose proof (sqr_le_dot_self d i). assert (0 < nth i d 0 * nth i d 0) by nra. lra.
+Qed.
+
+Lemma inner_0d_pos g d : 0 < g -> (exists i, nth i d 0 <> 0) -> 0 < inner_0d g d d.
+Proof.
+  intros Hg Hd. unfold inner_0d. rewrite dot_vscale_r. apply Rmult_lt_0_compat; [exact Hg | now apply dot_self_pos_nonzero].
+Qed.
+
+(** every direction that is not the zero vector: orthonormal columns in every branch (2-D: G positive definite) *)
+Theorem ortho_branches_orthonormal_nonzero j d g G1 G2 c c' :
+  (exists i, nth i d 0 <> 0) -> (S c < length d)%nat -> (S c' < length d)%nat ->
+  (ortho_pre_0d j d g ->
+     dot (col c (ortho_basis_0d j d g)) (col c' (ortho_basis_0d j d g)) = if Nat.eqb c c' then 1 else 0) /\
+  (ortho_pre_1d j d G1 ->
+     dot (col c (ortho_basis_1d j d G1)) (col c' (ortho_basis_1d j d G1)) = if Nat.eqb c c' then 1 else 0) /\
+  (ortho_pre_2d j d G2 -> pos_def_2d G2 (length d) ->
+     dot (col c (ortho_basis_2d j d G2)) (col c' (ortho_basis_2d j d G2)) = if Nat.eqb c c' then 1 else 0).
+Proof.
+  intros Hd Hc Hc'. split; [|split].
+  - intros P. apply ortho_0d_orthonormal; auto. destruct P as (Hg & _). apply Rgt_not_eq. now apply inner_0d_pos.
+  - intros P. apply ortho_1d_orthonormal; auto. destruct P as (HG & HL & _). apply Rgt_not_eq. now apply inner_1d_pos.
+  - intros P PD. apply ortho_2d_orthonormal; auto. apply Rgt_not_eq. now apply PD.
+Qed.
+
+Example ex_pos_def : pos_def_2d [[2; 1]; [1; 2]] 2.
+Proof.
+  intros x Hx (i & Hi). destruct x as [|a [|b [|? ?]]]; try discriminate.
+  unfold inner_2d, matvec. simpl.
+  assert (a <> 0 \/ b <> 0) as H.
+  { destruct i as [|[|i]]; simpl in Hi; [left | right | destruct i]; auto; simpl in Hi; lra. }
+  assert (0 < a * a + b * b) by (destruct H; nra). nra.
+Qed.
+
 (** ** what does NOT hold *)
 
 (** D_j = 0, D <> 0: [torch.sign(0) = 0], the reflection is about D itself; witness d = (1, 0), strip_col = 1,
